@@ -535,6 +535,11 @@ func (x *Exec) dynamicCall(st *State, fr *Frame, call *ssa.Call, fv Val, args []
 				name = vv.Name()
 			case *ssa.Alloc:
 				name = vv.Comment
+			case *ssa.FieldAddr:
+				// a function kept in a struct field: named ".field" in fnparam clauses
+				if st, ok := types.Unalias(deref(vv.X.Type())).Underlying().(*types.Struct); ok {
+					name = "." + st.Field(vv.Field).Name()
+				}
 			case *ssa.UnOp:
 				v = vv.X
 				continue
